@@ -37,17 +37,28 @@ Definition wins (a b : block) : Prop := higher_priority a b = 0.
 
 Inductive result := ROk | RAlready | RErrOld | RErrNoPrev | RErrPrevMismatch | RErrRatio | RErrTieBreak | RErrPop | RPanic.
 
-(* manager.Pop until the frontier is `target`; None = "can't rollback stable db" *)
-Fixpoint pop_until (rc : list block) (n_stable : nat) (target : ident) : option (list block) :=
-  if ident_eqb (frontier_id rc) target then Some rc
-  else match rc with
-       | [] => None
-       | _ :: r => if (length rc <=? n_stable)%nat then None else pop_until r n_stable target
-       end.
+(* manager.Pop until the frontier is `target`; None = "can't rollback stable db".
+   memdbManager.Pop removes one TRANSACTION: the frontier commit and the contract sends it carries (the sends directly
+   below it that are above the stable version). The loop of addAccountBlockTransaction compares the manager's frontier
+   with `target` only between two Pops, i.e. at transaction boundaries; mid = inside the transaction being popped. *)
+Fixpoint pop_until (rc : list block) (n_stable : nat) (target : ident) (mid : bool) : option (list block) :=
+  match rc with
+  | [] => if ident_eqb (0, 0) target then Some [] else None
+  | b :: r =>
+      if mid && bsend b && (n_stable <? length rc)%nat then pop_until r n_stable target true
+      else if ident_eqb (id_of b) target then Some rc
+      else if (length rc <=? n_stable)%nat then None
+      else pop_until r n_stable target true
+  end.
 
-Definition add (force : bool) (a : acct) (b : block) : acct * result :=
+(* a transaction: the descendant sends of a contract receive, oldest first, and the receive (any other block: no
+   descendants). GetCommits = descs ++ [b]; Previous() = the previous of the first commit; Identifier() = the one of b *)
+Definition tx_first (descs : list block) (b : block) : block := match descs with d :: _ => d | [] => b end.
+
+Definition add_tx (force : bool) (a : acct) (descs : list block) (b : block) : acct * result :=
   let rc := rchain a in
-  if ident_eqb (prev_of b) (frontier_id rc) then (mkAcct (b :: rc) (sh a), ROk)        (* fast-forward *)
+  let prev := prev_of (tx_first descs b) in
+  if ident_eqb prev (frontier_id rc) then (mkAcct (b :: rev descs ++ rc) (sh a), ROk)        (* fast-forward *)
   else
     match by_height rc (bheight b) with
     | Some t => if ident_eqb (id_of t) (id_of b) then (a, RAlready) else
@@ -55,21 +66,22 @@ Definition add (force : bool) (a : acct) (b : block) : acct * result :=
         if bheight b <=? stable_height a then (a, RErrOld) else
         match by_height rc (u64 (bheight b - 1)) with
         | None => (a, RErrNoPrev)
-        | Some p => if negb (ident_eqb (id_of p) (prev_of b)) then (a, RErrPrevMismatch) else
+        | Some p => if negb (ident_eqb (id_of p) prev) then (a, RErrPrevMismatch) else
             let pr := higher_priority b t in
             if negb force && negb (pr =? 0) then (a, if pr =? 1 then RErrRatio else RErrTieBreak) else
-            match pop_until rc (sh a) (prev_of b) with
-            | None => (a, RErrPop)
-            | Some rc' => (mkAcct (b :: rc') (sh a), ROk)
+            match pop_until rc (sh a) prev false with
+            | None => (mkAcct (confirmed a) (sh a), RErrPop)    (* the manager is left at its stable version *)
+            | Some rc' => (mkAcct (b :: rev descs ++ rc') (sh a), ROk)
             end
         end
     | None =>
         if bheight b <=? stable_height a then (a, RErrOld) else
         match by_height rc (u64 (bheight b - 1)) with
         | None => (a, RErrNoPrev)
-        | Some p => if negb (ident_eqb (id_of p) (prev_of b)) then (a, RErrPrevMismatch) else (a, RPanic)   (* higherPriority(block, nil) *)
+        | Some p => if negb (ident_eqb (id_of p) prev) then (a, RErrPrevMismatch) else (a, RPanic)   (* higherPriority(block, nil) *)
         end
     end.
+Definition add (force : bool) (a : acct) (b : block) : acct * result := add_tx force a [] b.
 
 (* rebuild of one account after a momentum: new_stable = the new confirmed chain (newest first);
    uncommitted = the old manager's blocks above the new stable height, in ascending order, re-added on a fresh manager
@@ -128,11 +140,23 @@ Definition rebuild_per_block (new_stable : list block) (old : acct) : option acc
 Definition aligned (a : acct) (k : nat) : Prop :=
   top_closed (rchain a) = true /\ top_closed (skipn (length (rchain a) - (sh a + k)) (rchain a)) = true.
 
-Inductive op := OAdd (force : bool) (b : block) | OMomentum (k : nat) | ODelete (j : nat).
+(* blocks (oldest first) that continue the chain whose frontier is `prev`: what the momentum verifier demands of the
+   account blocks a momentum confirms *)
+Fixpoint links_on (prev : ident) (l : list block) : bool :=
+  match l with
+  | [] => true
+  | x :: r => ident_eqb (prev_of x) prev && (bheight x =? snd prev + 1) && links_on (id_of x) r
+  end.
+
+Inductive op := OAdd (force : bool) (b : block) | OMomentum (k : nat) | ODelete (j : nat)
+  | OAddTx (force : bool) (descs : list block) (b : block) | OConfirm (newly : list block).
 
 (* OMomentum k: a momentum whose content for this account is the next k pooled blocks (its patches are taken from the
    pool, so the content is always a prefix of the pooled chain); ODelete j: momentums are rolled back so that j blocks
-   stay confirmed; the managers are dropped *)
+   stay confirmed; the managers are dropped; OAddTx: a transaction of several commits (a contract receive with its
+   descendant sends); OConfirm newly: a momentum that confirms `newly` on top of the confirmed blocks, whatever the pool
+   holds at these heights (the pillar's own momentum inserted after the pool replaced blocks it was generated with; a
+   momentum from sync when the pool is empty): the rebuild re-adds what the old manager has above the new stable height *)
 Definition step (a : acct) (o : op) : acct * result :=
   match o with
   | OAdd force b => add force a b
@@ -144,6 +168,15 @@ Definition step (a : acct) (o : op) : acct * result :=
            | None => (mkAcct ns (sh a + k), RErrPop)
            end
   | ODelete j => if (sh a <? j)%nat then (a, ROk) else (mkAcct (skipn (length (rchain a) - j) (rchain a)) j, ROk)
+  | OAddTx force descs b => add_tx force a descs b
+  | OConfirm newly =>
+      if links_on (frontier_id (confirmed a)) newly then
+        let ns := rev newly ++ confirmed a in
+        match rebuild ns a with
+        | Some a' => (a', ROk)
+        | None => (mkAcct ns (length ns), ROk)     (* logged; the account's manager is deleted *)
+        end
+      else (a, ROk)
   end.
 Fixpoint run (a : acct) (ops : list op) : acct :=
   match ops with [] => a | o :: r => run (fst (step a o)) r end.
@@ -155,7 +188,16 @@ Fixpoint linked (rc : list block) : Prop :=
   | b :: r => prev_of b = frontier_id r /\ bheight b = snd (frontier_id r) + 1 /\ linked r
   end.
 Definition wf (a : acct) : Prop := linked (rchain a) /\ (sh a <= length (rchain a))%nat.
-Definition wf_op (o : op) : Prop := match o with OAdd _ b => in_u64 (bheight b) | _ => True end.
+(* the commits of one transaction name each other (oldest first) *)
+Fixpoint tx_linked (l : list block) : Prop :=
+  match l with
+  | x :: r => match r with y :: _ => prev_of y = id_of x /\ bheight y = bheight x + 1 | [] => True end /\ tx_linked r
+  | [] => True
+  end.
+Definition wf_tx (descs : list block) (b : block) : Prop :=
+  in_u64 (bheight b) /\ in_u64 (bheight (tx_first descs b)) /\ tx_linked (descs ++ [b]).
+Definition wf_op (o : op) : Prop :=
+  match o with OAdd _ b => in_u64 (bheight b) | OAddTx _ descs b => wf_tx descs b | _ => True end.
 
 (* filterBlocksToCommit *)
 Fixpoint filter_loop (blocks : list block) (n_commit : Z) (batch : Z) : Z :=
